@@ -11,6 +11,7 @@ import (
 	"github.com/internetarchive/Zeno/internal/pkg/log"
 	"github.com/internetarchive/Zeno/internal/pkg/reactor"
 	"github.com/internetarchive/Zeno/internal/pkg/stats"
+	"github.com/internetarchive/Zeno/internal/pkg/verifhook"
 	"github.com/internetarchive/Zeno/pkg/models"
 )
 
@@ -94,7 +95,9 @@ func (f *finisher) worker(workerID string) {
 			return
 		case <-controlChans.PauseCh:
 			logger.Debug("received pause event")
+			verifhook.At("pause.ack", "fin."+workerID)
 			controlChans.ResumeCh <- struct{}{}
+			verifhook.At("pause.resumed", "fin."+workerID)
 			logger.Debug("received resume event")
 		case seed, ok := <-f.inputCh:
 			if ok {
@@ -107,6 +110,7 @@ func (f *finisher) worker(workerID string) {
 				}
 
 				logger.Debug("received seed", "seed", seed.GetShortID())
+				verifhook.AtKV("fin.recv", seed.GetID(), "fin."+workerID, 0)
 
 				if err := seed.CheckConsistency(); err != nil {
 					panic(fmt.Sprintf("seed consistency check failed with err: %s, seed id %s, worker id %s", err.Error(), seed.GetShortID(), workerID))
@@ -115,6 +119,7 @@ func (f *finisher) worker(workerID string) {
 				// If the seed is fresh, send it to the source
 				if seed.GetStatus() == models.ItemFresh {
 					logger.Debug("fresh seed received", "seed", seed)
+					verifhook.AtItem("fin.outlink", seed)
 					f.sourceProducedCh <- seed
 					continue
 				}
@@ -123,6 +128,7 @@ func (f *finisher) worker(workerID string) {
 				isComplete := seed.CompleteAndCheck()
 				if !isComplete {
 					logger.Debug("seed has fresh children", "seed", seed.GetShortID())
+					verifhook.At("fin.feedback", seed.GetID())
 					err := reactor.ReceiveFeedback(seed)
 					if err != nil && err != reactor.ErrReactorFrozen {
 						panic(err)
@@ -132,16 +138,19 @@ func (f *finisher) worker(workerID string) {
 
 				// If the seed has no fresh redirection or children, mark it as finished
 				logger.Debug("seed has no fresh redirection or children", "seed", seed.GetShortID())
+				verifhook.At("fin.before_mark", seed.GetID())
 				err := reactor.MarkAsFinished(seed)
 				if err != nil {
 					panic(err)
 				}
+				verifhook.AtItem("fin.notify", seed)
 
 				// Notify the source that the seed has been finished
 				// E.g.: to delete the seed in Crawl HQ
 				if f.sourceFinishedCh != nil {
 					f.sourceFinishedCh <- seed
 				}
+				verifhook.At("fin.notified", seed.GetID())
 
 				stats.SeedsFinishedIncr()
 				logger.Debug("seed finished", "seed", seed.GetShortID())
